@@ -28,6 +28,8 @@ type c09Case struct {
 	Opts     backends.Options `json:"opts"`
 	Setup    []prog.Op        `json:"setup"`
 	Requests []lreq           `json:"requests"`
+	// Large: the fixed large-object scenario (c09LargeCase) on this configuration
+	Large bool `json:"large,omitempty"`
 }
 
 const c09Base = "s3.test"
@@ -368,6 +370,32 @@ func c09Orphans(recreate bool) []prog.Op {
 	return ops
 }
 
+// c09LargeCase: objects of a few MiB through every request kind that moves their bytes inside the server.
+func c09LargeCase(k backends.Kind, o backends.Options) c09Case {
+	big := prog.Pattern(2<<20+77, 5)
+	bigger := prog.Pattern(5<<20+3, 6)
+	bkt := "bk0"
+	if k.IsSingle() {
+		bkt = backends.SingleBucketName
+	}
+	var setup []prog.Op
+	if !k.IsSingle() && !o.AutoBucket {
+		setup = append(setup, prog.Op{K: "mkbucket", B: bkt})
+	}
+	setup = append(setup, prog.Op{K: "put", B: bkt, Key: "big/object", Body: big}, prog.Op{K: "put", B: bkt, Key: "small", Body: []byte("s")})
+	reqs := []lreq{
+		{Family: "large:copy", Method: "PUT", Bucket: bkt, Key: "big/copy", Header: s3x.H("X-Amz-Copy-Source", "/"+bkt+"/big/object")},
+		{Family: "large:copy-onto-itself", Method: "PUT", Bucket: bkt, Key: "big/object", Header: s3x.H("X-Amz-Copy-Source", "/"+bkt+"/big/object", "X-Amz-Meta-Again", "1")},
+		{Family: "large:get", Method: "GET", Bucket: bkt, Key: "big/object"},
+		{Family: "large:ranged-get", Method: "GET", Bucket: bkt, Key: "big/object", Header: s3x.H("Range", "bytes=1048570-1048590")},
+		{Family: "large:overwrite", Method: "PUT", Bucket: bkt, Key: "big/object", Body: bigger},
+		{Family: "large:copy-after-overwrite", Method: "PUT", Bucket: bkt, Key: "big/copy2", Header: s3x.H("X-Amz-Copy-Source", "/"+bkt+"/big/object")},
+		{Family: "large:overwrite-by-small", Method: "PUT", Bucket: bkt, Key: "big/object", Body: []byte("tiny")},
+		{Family: "large:delete", Method: "DELETE", Bucket: bkt, Key: "big/copy"},
+	}
+	return c09Case{Backend: k, Opts: o, Setup: setup, Requests: reqs}
+}
+
 func c09GenSetup(rt *rapid.T, k backends.Kind, opts backends.Options) []prog.Op {
 	var ops []prog.Op
 	b := func(s string) []byte { return []byte(s) }
@@ -459,6 +487,9 @@ func c09Replay(check string, raw json.RawMessage) ([]disc, error) {
 	var cs c09Case
 	if err := json.Unmarshal(raw, &cs); err != nil {
 		return nil, err
+	}
+	if cs.Large {
+		cs = c09LargeCase(cs.Backend, cs.Opts)
 	}
 	return c09Exec(cs, nil), nil
 }
@@ -590,6 +621,25 @@ func c09Run(t *testing.T, c *evid.Collector) {
 					violated = report(c, "request", ds, cs)
 				}
 			}
+		}
+	}
+	// fixed: objects of a few MiB (beyond any plausible internal threshold) through every request kind
+	// that moves their bytes inside the server (ignores the seed)
+	if evid.Shard() == 0 {
+		for _, cfg := range cfgs {
+			cfg := cfg
+			cs := c09LargeCase(cfg.K, cfg.O)
+			ds := c09Exec(cs, func(l lreq, rq *s3x.Req, r *s3x.Resp) {
+				c.Case(evid.FP("large", string(cfg.K), mustJSON(cfg.O), l.Family), true, func() interface{} {
+					s := l
+					if len(s.Body) > 80 {
+						s.Body = s.Body[:80]
+					}
+					return s
+				}, "family:"+l.Family, "backend:"+string(cfg.K), "src:fixed-large-objects")
+			})
+			// the replay file names the scenario instead of carrying megabytes of bodies
+			report(c, "request", ds, c09Case{Backend: cfg.K, Opts: cfg.O, Large: true})
 		}
 	}
 	rapidRun(t, "grammar", evid.Scale(1100, 25000), c09Prop(c, cfgs, 25))
